@@ -1,6 +1,7 @@
 package main
 
 import (
+	"strings"
 	"fmt"
 	"sort"
 
@@ -209,6 +210,29 @@ func propC02(r *Run) {
 			if string(res.Bytes()) != string(want) {
 				r.fail(Failure{Oracle: opn + ": residues = host[:i]+guest+host[i:]", Op: line,
 					Got: encBytes(res.Bytes()), Want: encBytes(want)})
+			}
+			// the same host value (residues in a buffer with spare capacity, as Concat / append
+			// leave them) fed to a second insertion: the first result still reads host[:i]+guest+host[i:]
+			{
+				buf := make([]byte, len(host.Bytes()), len(host.Bytes())+2*gl+8)
+				copy(buf, host.Bytes())
+				hf := make(gts.FeatureSlice, len(host.Features()))
+				copy(hf, host.Features())
+				shared := gts.New(nil, hf, buf)
+				other := gts.New(nil, nil, []byte(strings.Repeat("N", gl)))
+				var first gts.Sequence
+				if opn == "seq.insert" {
+					first = gts.Insert(shared, i, copySeq(guest))
+					_ = gts.Insert(shared, i, other)
+				} else {
+					first = gts.Embed(shared, i, copySeq(guest))
+					_ = gts.Embed(shared, i, other)
+				}
+				r.count(opn + "/second insertion into the same host")
+				if string(first.Bytes()) != string(want) {
+					r.fail(Failure{Oracle: opn + ": the result still reads host[:i]+guest+host[i:] after a second insertion into the same host (host buffer with spare capacity)", Op: line,
+						Got: encBytes(first.Bytes()), Want: encBytes(want)})
+				}
 			}
 			// every host and guest feature present exactly once (key+props multiset)
 			cnt := map[string]int{}
@@ -435,11 +459,28 @@ func propC03(r *Run) {
 				r.fail(Failure{Oracle: opn + ": residues = seq[:i]+seq[i+n:]", Op: line,
 					Got: encBytes(res.Bytes()), Want: encBytes(want)})
 			}
+			// the same sequence value used twice: both results read seq[:i]+seq[i+n:]
+			{
+				shared := copySeq(s)
+				var r1, r2 gts.Sequence
+				if opn == "seq.delete" {
+					r1 = gts.Delete(shared, i, k)
+					r2 = gts.Delete(shared, i, k)
+				} else {
+					r1 = gts.Erase(shared, i, k)
+					r2 = gts.Erase(shared, i, k)
+				}
+				r.count(opn + "/same argument used twice")
+				if string(r1.Bytes()) != string(want) || string(r2.Bytes()) != string(want) {
+					r.fail(Failure{Oracle: opn + ": applied twice to the same sequence value, both results read seq[:i]+seq[i+n:]", Op: line,
+						Got: encBytes(r1.Bytes()) + " / " + encBytes(r2.Bytes()), Want: encBytes(want)})
+				}
+			}
 			if opn == "seq.erase" {
 				// dropped exactly the non-source features whose residues all lie in [i,i+k)
 				wantN := 0
 				for _, f := range s.Features() {
-					if f.Key == "source" || !gts.LocationWithin(f.Loc, i, i+k) {
+					if f.Key == "source" || !specWithin(f.Loc, i, i+k) {
 						wantN++
 					}
 				}
@@ -453,7 +494,7 @@ func propC03(r *Run) {
 			}
 			wantF := map[string]int{}
 			for _, f := range s.Features() {
-				if opn == "seq.erase" && f.Key != "source" && gts.LocationWithin(f.Loc, i, i+k) {
+				if opn == "seq.erase" && f.Key != "source" && specWithin(f.Loc, i, i+k) {
 					continue
 				}
 				if d := den(f.Loc); lawApplies(f.Loc, d) {
@@ -1190,10 +1231,21 @@ func propC10(r *Run) {
 			cuts[r.rng.intn(LL+1)] = true
 		}
 		pts := []int{0}
+		// "any set of positions": a cut at 0, at Len, or the same position twice gives an empty
+		// piece (Slice(seq, k, k)), which has to stay empty
+		if cuts[0] || r.rng.intn(4) == 0 {
+			pts = append(pts, 0)
+		}
 		for x := 1; x < LL; x++ {
 			if cuts[x] {
 				pts = append(pts, x)
+				if r.rng.intn(6) == 0 {
+					pts = append(pts, x)
+				}
 			}
+		}
+		if cuts[LL] || r.rng.intn(4) == 0 {
+			pts = append(pts, LL)
 		}
 		pts = append(pts, LL)
 		pieces := make([]gts.Sequence, 0)
@@ -1262,7 +1314,7 @@ func sliceGuards(s gts.Sequence, a, b int) string {
 	L := len(s.Bytes())
 	out := ""
 	for _, f := range s.Features() {
-		if !gts.LocationOverlap(f.Loc, a, b) {
+		if !specOverlap(f.Loc, a, b) {
 			continue
 		}
 		mid := f.Loc.Expand(b, b-L)
